@@ -442,7 +442,8 @@ impl TestRunner {
     }
 
     pub fn step_out(&mut self) -> MosResult<ExecuteResult> {
-        if self.cpu.get_stack_pointer() > 253 {
+        // (the stack pointer starts at $fd: that, or anything above it, means we are not in a subroutine)
+        if self.cpu.get_stack_pointer() >= 253 {
             // Nothing to step out to
             return Ok(ExecuteResult::Running);
         }
